@@ -162,6 +162,13 @@ def run(ctx):
             res = o["res"]
             adjusted_ids = set(gama.adjusted_map(res)) | set(p["id"] for p in res["fixed"])
             missing = [p["id"] for p in net["points"] if p["id"] not in adjusted_ids]
+            # a point may also lose only its height (or only its position): 'missing coordinates z' of the approximate-coordinate search
+            am_ = gama.adjusted_map(res)
+            for p in net["points"]:
+                want = (p.get("adj") or "").lower()
+                got = am_.get(p["id"], {})
+                if p["id"] not in missing and (("z" in want and "z" not in got) or ("xy" in want and "x" not in got)):
+                    missing.append(p["id"])
             has_dh = any(('from_dh' in ob or 'to_dh' in ob) for c in net['clusters'] for ob in c['obs'])
             # with instrument/target heights gama's reduction loop stops at 0.1 cc / 0.001 mm: 0.05 mm on the coordinates
             dd = check_truth(res, truth, tol=(5e-5 if has_dh else 5e-6))
